@@ -72,7 +72,7 @@ def main():
             for k, v in results.items():
                 print("     %s rc=%d %s" % (k, v["rc"], v["first"][:200]))
             if confirmed:
-                dst = os.path.join(HERE, "seeded", owner, d)
+                dst = os.path.join(HERE, "seeded", owner, os.environ.get("SEED_PREFIX", "") + d)
                 os.makedirs(dst, exist_ok=True)
                 for f in ("patch.diff", "demo.py", "notes.txt"):
                     if os.path.exists(os.path.join(sd, f)):
